@@ -617,7 +617,14 @@ func (e *LogEnv) onUpload(w *World, c *Call) {
 		prev := vs[len(vs)-2]
 		if !prev.Deleted && (prev.Opts.Immutable || strings.HasPrefix(c.Key, "tile/") || strings.HasPrefix(c.Key, "issuer/") || strings.HasPrefix(c.Key, "staging/")) && prev.By != "tamper" {
 			if !bytes.Equal(prev.Data, c.Data) {
-				e.violate("immutable-rewritten:"+keyClass(c.Key), "immutable object %s rewritten with different bytes (%d -> %d bytes)", c.Key, len(prev.Data), len(c.Data))
+				if e.AuditUploads {
+					// adversarial storage (C08): what the server writes may derive
+					// from a tampered staging bundle or tile; the statement constrains
+					// the checkpoints it signs, so this is recorded, not judged
+					e.R.Count("info_immutable_rewritten_under_tampering:"+keyClass(c.Key), 1)
+				} else {
+					e.violate("immutable-rewritten:"+keyClass(c.Key), "immutable object %s rewritten with different bytes (%d -> %d bytes)", c.Key, len(prev.Data), len(c.Data))
+				}
 			}
 		}
 	}
